@@ -91,7 +91,10 @@ def interval_case(draw, weights=(5, 3, 2, 1), max_ranks: int = 3, max_n: int = 1
     epoch = draw(st.sampled_from(EPOCHS))
     ranks = [draw(rank_activities(r, epoch + (draw(st.integers(0, 20)) if r else 0), weights, max_n, min_n, force_comm))
              for r in range(nranks)]
-    return {"ranks": ranks, "fmt": draw(st.sampled_from(["json", "gz"])), "mp": draw(st.integers(0, 5)) == 0}
+    from hv.hta_io import prelude_strategy
+
+    return {"ranks": ranks, "fmt": draw(st.sampled_from(["json", "gz"])), "mp": draw(st.integers(0, 5)) == 0,
+            "prelude": draw(prelude_strategy())}
 
 
 def device_intervals(events: List[Dict[str, Any]]):
